@@ -67,6 +67,13 @@ int main(void) {
   B(28); B(0x24); STR1('p'); B(8); U(pv); B(13 + STRREF); U(0);
   B(PREC); if (PREC == 28) B(0x08);
   B(9); STR1('q');
+#elif ELEM == 8      /* PATH: info byte E W P X Y R D L = 0xFB; half-width; extension scheme EXT (SS EE bit pairs: 1 flush, 2 half-width, 3 explicit signed value);
+                        point list of type PLT (2: Manhattan 2-deltas, 4: general g-deltas) with two deltas; x; y */
+  int32_t e0 = (int32_t)nd_range(-LIM, LIM), e1 = (int32_t)nd_range(-LIM, LIM), d1x = (int32_t)nd_range(-LIM, LIM), d1y = (int32_t)nd_range(-LIM, LIM), d2x = (int32_t)nd_range(-LIM, LIM), d2y = (int32_t)nd_range(-LIM, LIM);
+  if (PLT == 2) { if (nd_bool()) d1x = 0; else d1y = 0; if (nd_bool()) d2x = 0; else d2y = 0; }
+  ASSUME((d1x != 0 || d1y != 0) && (d2x != 0 || d2y != 0));          /* no repeated spine points (the reader drops nothing, but simple paths have none) */
+  B(22); B(0xFB); U(layer); U(dtype); U(w); B(EXT); if ((EXT & 0x0C) == 0x0C) I(e0); if ((EXT & 0x03) == 0x03) I(e1);
+  B(PLT); U(2); tok_put(PLT == 2 ? K_2D : K_GD, (uint64_t)(int64_t)d1x, (uint64_t)(int64_t)d1y); tok_put(PLT == 2 ? K_2D : K_GD, (uint64_t)(int64_t)d2x, (uint64_t)(int64_t)d2y); I(x); I(y);
 #endif
   B(2);                /* END */
   uint8_t fname[2] = {'f', 0}; uint32_t err = 0; Lib lib = {0};
@@ -94,6 +101,19 @@ int main(void) {
     CHECK(r->f0 == 0 && *(Cell**)&r->f1 == lib_cell(&lib, 1) && lib_cell(&lib, 1)->f0[0] == 'D', "placement by name resolved to the cell defined later");
     CHECK(VXD(r->f2) == (double)x && VYD(r->f2) == (double)y && r->f4 == 1.0 && (r->f5 & 1) == refl, "origin, unit magnification, reflection bit");
     CHECK(r->f3 == (RC == 0 ? 0.0 : RC == 1 ? 3.14159265358979323846 * 0.5 : RC == 2 ? 3.14159265358979323846 : 3.14159265358979323846 * 1.5), "rotation code: 0 / 90 / 180 / 270 degrees"); }
+#elif ELEM == 8
+  { CHECK(c->f3.f1 == 1 && c->f1.f1 == 0, "one path, no polygon"); FPath* p = ((FPath**)c->f3.f2)[0]; struct S_struct_gdstk__FlexPathElement* el = p->f1;
+    CHECK(p->f2 == 1 && el->f0 == TAG(layer, dtype) && (p->f3 & 1), "one element with the 32-bit layer and datatype; a simple path");
+    CHECK(p->f0.f0.f1 == 3 && el->f1.f1 == 3, "three spine points, one width/offset entry each");
+    double* sp = (double*)p->f0.f0.f2; double* wo = (double*)el->f1.f2;
+    double X = (double)x, Y = (double)y;
+    CHECK(sp[0] == X && sp[1] == Y && sp[2] == X + (double)d1x && sp[3] == Y + (double)d1y && sp[4] == X + (double)d1x + (double)d2x && sp[5] == Y + (double)d1y + (double)d2y, "spine = position + running sum of the deltas");
+    for (int i = 0; i < 3; i++) CHECK(wo[2 * i] == (double)w && wo[2 * i + 1] == 0.0, "half-width as given at every point, no offset");
+    /* end style the extension scheme denotes: start / end extension = 0 (flush), half-width, or the explicit value */
+    double xs = (EXT & 0x0C) == 0x04 ? 0.0 : (EXT & 0x0C) == 0x08 ? (double)w : (double)e0, xe = (EXT & 0x03) == 0x01 ? 0.0 : (EXT & 0x03) == 0x02 ? (double)w : (double)e1;
+    if (xs == 0.0 && xe == 0.0) CHECK(el->f5 == 0 || (el->f5 == 3 && VXD(el->f6) == 0.0 && VYD(el->f6) == 0.0), "both ends flush");
+    else if (xs == (double)w && xe == (double)w) CHECK(el->f5 == 2 || (el->f5 == 3 && VXD(el->f6) == xs && VYD(el->f6) == xe), "both ends extended by the half-width");
+    else CHECK(el->f5 == 3 && VXD(el->f6) == xs && VYD(el->f6) == xe, "ends extended by exactly the denoted lengths"); }
 #elif ELEM == 7
   { CHECK(c->f1.f1 == 1, "one polygon"); Poly* p = ((Poly**)c->f1.f2)[0];
     struct S_struct_gdstk__Property* pr = p->f3; int np = 0;
